@@ -403,6 +403,18 @@ def run_redefine(ctx, shape, how, first):
     if first == 'undefined':
         common.require_decision(ctx, one, want(z3.BoolVal(False)),
                                 'redefine:first', detail={'shape': shape})
+    elif first == 'raises':
+        # a definition that raises: the reference is transparent for that
+        # too -- same outcome as with the parenthesised text put in its place
+        itexts = {'direct': '(boom:b)', 'not': 'not (boom:b)',
+                  'and': 'sym:a and (boom:b)', 'chain': 'rule:mid',
+                  'or': '(boom:b) or sym:a'}
+        inl = common.mk_enforcer(rules=policy.Rules({
+            'p': _parser.parse_rule(itexts[shape]),
+            'mid': _parser.parse_rule('(boom:b)')}))
+        inlined = common.decision(ctx, inl, 'p', {})
+        ctx.require_equiv(one, inlined, 'redefine:raising-definition-is-'
+                          'not-transparent', detail={'shape': shape})
     elif first in ('defined', 'via-default'):
         common.require_decision(ctx, one, want(x1), 'redefine:first',
                                 detail={'shape': shape})
